@@ -107,6 +107,7 @@ func (Engine) Run(c *simkit.Choices, x *simkit.Ctx) *simkit.Violation {
 		})
 		site := string(sf) + ">" + string(df)
 		sc.Target = hex.EncodeToString(w.Buf)
+		x.Observe(w.Buf)
 		if pi != nil {
 			return &simkit.Violation{Kind: "panic", Site: site + pi.Site, Detail: pi.Value + "\n" + pi.Stack, Scenario: sc}
 		}
